@@ -83,7 +83,8 @@ func UnifyGenericType(argType Type, paramType ParameterType, genericTypes map[st
 	paramStructType, isParamStruct := CastStruct(genericType)
 	argStructType, isArgStruct := CastStruct(instantiatedType)
 
-	if isParamStruct && paramStructType.genericType != nil && (!isArgStruct || argStructType.genericType == nil) {
+	if isParamStruct && paramStructType.genericType != nil && (!isArgStruct || argStructType.genericType != paramStructType.genericType) {
+		// the argument is not an instantiation of the same generic struct
 		return nil
 	} else if isParamStruct && paramStructType.genericType != nil {
 		typeParams := make([]Type, 0, len(paramStructType.instantiatedWith))
